@@ -29,25 +29,39 @@ fn insert(log: &mut Log, t: &mut T, s: i64, e: i64, d: u32, with_shape: bool) ->
     r["st"] == "ok"
 }
 
+/// Per query: the hits collected from the iterator, the number the iterator reports through `count()`,
+/// and the hits seen by a CLONE of the iterator taken after its first item (first item + the clone's rest).
 fn finds(log: &mut Log, t: &T, qs: &[(i64, i64)]) {
     let qj: Vec<Value> = qs.iter().map(|q| json!([q.0, q.1])).collect();
     log.call("finds", json!({"qs": qj}), || {
-        let res: Vec<Value> = qs
+        let ej = |e: &bio::data_structures::interval_tree::Entry<i64, u32>| json!([e.interval().start, e.interval().end, *e.data()]);
+        let res: Vec<Value> = qs.iter().map(|q| Value::Array(t.find(q.0..q.1).map(|e| ej(&e)).collect())).collect();
+        let counts: Vec<usize> = qs.iter().map(|q| t.find(q.0..q.1).count()).collect();
+        let fork: Vec<Value> = qs
             .iter()
             .map(|q| {
-                Value::Array(
-                    t.find(q.0..q.1)
-                        .map(|e| json!([e.interval().start, e.interval().end, *e.data()]))
-                        .collect(),
-                )
+                let mut it = t.find(q.0..q.1);
+                let mut v: Vec<Value> = vec![];
+                if let Some(e) = it.next() {
+                    v.push(ej(&e));
+                }
+                let c = it.clone();
+                let rest_orig = it.count();
+                let rest: Vec<Value> = c.map(|e| ej(&e)).collect();
+                if rest.len() != rest_orig {
+                    v.push(json!([0, 0, -1])); // the clone and the original disagree: not a stored entry
+                }
+                v.extend(rest);
+                Value::Array(v)
             })
             .collect();
-        json!({"res": res})
+        json!({"res": res, "counts": counts, "fork": fork})
     });
 }
 
 fn find_mut(log: &mut Log, t: &mut T, q: (i64, i64)) {
     log.call("find_mut", json!({"qs": q.0, "qe": q.1}), || {
+        let cnt = t.find_mut(q.0..q.1).count();
         let mut res: Vec<Value> = vec![];
         for mut e in t.find_mut(q.0..q.1) {
             let (s, en) = (e.interval().start, e.interval().end);
@@ -55,8 +69,33 @@ fn find_mut(log: &mut Log, t: &mut T, q: (i64, i64)) {
             res.push(json!([s, en, *d]));
             *d += 1000;
         }
-        json!({"res": res})
+        json!({"res": res, "cnt": cnt})
     });
+}
+
+/// replace the tree by a copy of itself (clone / serde round trip / clone_from into a used tree)
+fn copy(log: &mut Log, t: &mut T, how: u64) -> bool {
+    let r = log.call("copy", json!({"how": how % 3}), || {
+        match how % 3 {
+            0 => {
+                let c = t.clone();
+                *t = c;
+            }
+            1 => {
+                let txt = serde_json::to_string(&*t).unwrap();
+                *t = serde_json::from_str(&txt).unwrap();
+            }
+            _ => {
+                let mut other = T::new();
+                other.insert(-5..77, 4242);
+                other.insert(3..4, 4243);
+                other.clone_from(t);
+                *t = other;
+            }
+        }
+        json!({"has_shape": 1, "shape": shape_json(t)})
+    });
+    r["st"] == "ok"
 }
 
 fn all_queries(lo: i64, hi: i64) -> Vec<(i64, i64)> {
@@ -103,6 +142,12 @@ pub fn drive(log: &mut Log) {
             }
             if !okk {
                 continue;
+            }
+            if case % 3 == 0 {
+                if !copy(log, &mut t, case / 3) {
+                    continue;
+                }
+                log.oblige("tree_copied_mid_history");
             }
             let qs = all_queries(lo - 1, hi + 1);
             finds(log, &t, &qs);
@@ -193,6 +238,13 @@ pub fn drive(log: &mut Log) {
                 if !insert(log, &mut t, iv.0, iv.1, k as u32, with_shape) {
                     okk = false;
                     break;
+                }
+                if rng.chance(1, 25) {
+                    if !copy(log, &mut t, rng.below(3)) {
+                        okk = false;
+                        break;
+                    }
+                    log.oblige("tree_copied_mid_history");
                 }
                 if rng.chance(1, 6) {
                     let a = rng.range(lo - 1, hi);
